@@ -92,6 +92,7 @@ static void reg_manager(fiber_manager_t* m, int t) {
   rt_reg((void*)&m->set_wait_location, 8, base + 5, 8);
   rt_reg((void*)&m->done_fiber, 8, base + 6, 8);
   rt_reg((void*)&m->maintenance_fiber, 8, base + 7, 8);
+  rt_reg((void*)&m->yield_count, sizeof m->yield_count, base + 8, 8);   /* one write per fiber_manager_yield: the fairness oracle counts them */
 }
 
 /* protocol events (override of the weak defaults in rt.c) */
